@@ -33,7 +33,7 @@ PROPS = {
     "C16": determinism.ALL + [container.f10_dep_order, consistency.save_restore, round4.dict_alias, round4.conv_sorted] + _generic(("ttLib/", "misc/timeTools.py")),
     "C17": exhaust.ALL_C17 + [round4.reorder_null_guard, round4.reorder_gid_structs] + _generic(("ttLib/reorderGlyphs.py", "ttLib/scaleUpem.py")),
     "C18": merge.ALL + [_scoped(determinism.f12_set_order, scope=("merge/",), rule="F12-merge")] + _generic(("merge/",)),
-    "C19": design.C19 + [round4.kerning_sides, round4.uniq_pool, _scoped(consistency.clones, prop="C19")] + _generic(("designspaceLib/", "ufoLib/")),
+    "C19": design.C19 + [design.map_direction, round4.kerning_sides, round4.uniq_pool, _scoped(consistency.clones, prop="C19")] + _generic(("designspaceLib/", "ufoLib/")),
     "C20": safety.ALL + [round4.broad_handler, round4.head_patch_guard, round4.head_raw_reads] + _generic(("ttLib/ttFont.py", "ttLib/sfnt.py", "ttLib/ttCollection.py", "misc/xmlReader.py", "ttx.py", "misc/macRes.py", "t1Lib/")),
 }
 
